@@ -904,8 +904,8 @@ DEFOP(hooks) {
     if (!v.empty()) { if (w.cfg.judge_hooks || w.cfg.judge_memory) w.violation("hooks-ledger", v + " [end of epoch]"); w.discard(v); }
     if (asim::live_blocks() != w.base_live) {
         std::string d = "at the end of an epoch " + I((int64_t)(asim::live_blocks() - w.base_live)) + " block(s) are still allocated:" + asim::describe_live();
-        if (w.cfg.judge_hooks || w.cfg.judge_memory) w.violation("leak", d);
-        w.discard(d);
+        if (w.cfg.judge_memory) w.violation("leak", d);
+        w.discard(d);  // C14 states where blocks come from and go to, not that every block is released: a leak is C07's
     }
     int hc = (int)((uint64_t)st.A(0) % 6);
     w.install_hooks(hc);
